@@ -5,6 +5,7 @@ import (
 	"go/constant"
 	"go/token"
 	"go/types"
+	"strings"
 
 	"golang.org/x/tools/go/ssa"
 )
@@ -12,8 +13,8 @@ import (
 func init() {
 	register(&Prop{
 		ID: "C02",
-		Decided: "(1) every store to Watermark.currentWatermark is reachable only under new>old, to maxEventTime only under zero-or-greater, lastSentWatermark only on the successful-send arm with the value sent; (2) every candidate watermark is X.Add(-maxOutOfOrderness) with X the event time, maxEventTime or (idle branch) now; (3) in UpdateEventTime no store to maxEventTime/currentWatermark is reachable once eventTime.After(now+maxOutOfOrderness+24h); (4) IsEventTimeLate is exactly 'watermark non-zero and ts<watermark'; (5) the watermark handlers of tumbling/sliding/session windows extract or expire only under watermark>=end; (6) UpdateEventTime is reached only with a usable timestamp; (7) rows are discarded in the event-time Add only when late or without timestamp; (9) an allowance entry is removed only when watermark>=closeTime, closeTime=end.Add(AllowedLateness), and sliding closeExpiredWindows does not write the row buffer; (10) lock discipline of Watermark and of the three windows.",
-		NotDecided: "observability order across the watermark channel (no result before the watermark passed, as a schedule property), idle-timeout wall-clock behaviour, that a late re-delivery's contents are previous+event, bursts faster than the consumer.",
+		Decided: "(1) every store to Watermark.currentWatermark is reachable only under new>old, to maxEventTime only under zero-or-greater, lastSentWatermark only on the successful-send arm with the value sent; (2) every candidate watermark is X.Add(-maxOutOfOrderness) with X the event time, maxEventTime or (idle branch) now; (3) in UpdateEventTime no store to maxEventTime/currentWatermark is reachable once eventTime.After(now+maxOutOfOrderness+24h); (3b) every event that passes UpdateEventTime refreshes the idle clock lastEventTime with time.Now(); (4) IsEventTimeLate is exactly 'watermark non-zero and ts<watermark'; (5) the watermark handlers of tumbling/sliding/session windows extract or expire only under watermark>=end; (6) UpdateEventTime is reached only with a usable timestamp; (7) rows are discarded in the event-time Add only when late or without timestamp; (8) a late re-delivery keeps the identity of the fired window: the late-update function is called with the slot stored in the fired-window entry that Contains the event, every row it emits (snapshot copies and late rows) carries that slot, and window_id is computed from the Start/End of the batch slot; (9) an allowance entry is removed only when watermark>=closeTime, closeTime=end.Add(AllowedLateness), and sliding closeExpiredWindows does not write the row buffer; (10) lock discipline of Watermark and of the three windows.",
+		NotDecided: "observability order across the watermark channel (no result before the watermark passed, as a schedule property), idle-timeout wall-clock behaviour, that the contents of a late re-delivery are previous+event, bursts faster than the consumer.",
 		Run: runC02,
 	})
 }
@@ -74,6 +75,42 @@ func runC02(a *A) {
 		}
 	})
 	a.Rule("ordtab/future-guard", 2, func() { a.ruleFutureGuard() })
+	a.Rule("flow/activity-refreshes-idle-clock", 1, func() {
+		W := wmT()
+		fn := a.Method("window", "Watermark", "UpdateEventTime")
+		le := a.FieldOf(W, "lastEventTime")
+		stores := storesToField(fn, le)
+		okVal := len(stores) > 0
+		for _, st := range stores {
+			t := TermOf(st.Val, nil)
+			if !(t.Kind == "call" && t.Name == "time.Now") {
+				okVal = false
+			}
+		}
+		// every return not behind the far-future guard is preceded by the refresh
+		isStore := func(in ssa.Instruction) bool {
+			st, ok := in.(*ssa.Store)
+			return ok && fieldAddrIs(st.Addr, le)
+		}
+		var escape ssa.Instruction
+		for _, b := range fn.Blocks {
+			ret, ok := b.Instrs[len(b.Instrs)-1].(*ssa.Return)
+			if !ok {
+				continue
+			}
+			if guardedByValue(b, func(v ssa.Value) bool {
+				c, ok := v.(*ssa.Call)
+				return ok && timeMethod(&c.Call) == "After"
+			}, true) {
+				continue // the far-future return
+			}
+			if reachableFrom(fn.Blocks[0], 0, func(in ssa.Instruction) bool { return in == ssa.Instruction(ret) }, isStore) != nil {
+				escape = ret
+			}
+		}
+		a.Check(okVal && escape == nil, fname(fn)+"#every-event-is-activity", fn.Pos(), "every accepted event refreshes lastEventTime with the processing time (the idle clock measures the time since the last event of any timestamp)",
+			"an event can pass UpdateEventTime without refreshing lastEventTime: a source that keeps sending on-time, out-of-order rows looks idle, the watermark jumps to processing time and windows fire before their events arrived")
+	})
 	a.Rule("ordtab/is-late", 1, func() {
 		fn := a.Method("window", "Watermark", "IsEventTimeLate")
 		a.OrdTable("(*window.Watermark).IsEventTimeLate", fn.Pos(), "late iff watermark is set and ts < watermark", OrdSpec{
@@ -102,6 +139,7 @@ func runC02(a *A) {
 		}
 	})
 	a.Rule("ordtab/allowance-expiry", 6, func() { a.ruleAllowanceExpiry() })
+	a.Rule("shape/late-update-identity", 5, func() { a.ruleLateUpdateIdentity() })
 	a.Rule("locks/guarded-by", 10, func() {
 		a.lockRules("window", "Watermark")
 		a.lockRules("window", "TumblingWindow")
@@ -394,4 +432,78 @@ func (a *A) ruleAllowanceExpiry() {
 	a.Check(len(storesToField(fn, a.FieldOf(sw, "data"))) == 0, fname(fn)+"#keeps-rows", fn.Pos(),
 		"does not write SlidingWindow.data (rows may still be needed by overlapping intervals)",
 		"writes SlidingWindow.data: rows needed by overlapping not-yet-fired intervals would be lost")
+}
+
+// ruleLateUpdateIdentity (C02.8): late updates are re-delivered under the fired window's own slot.
+func (a *A) ruleLateUpdateIdentity() {
+	for _, w := range []struct{ typ, handler, update string }{
+		{"TumblingWindow", "handleLateData", "extractLateUpdateDataLocked"},
+		{"SlidingWindow", "handleLateData", "triggerLateUpdateLocked"},
+	} {
+		h := a.Method("window", w.typ, w.handler)
+		u := a.Method("window", w.typ, w.update)
+		calls := callsTo(h, u)
+		if len(calls) == 0 {
+			a.Bad(fname(h)+"#late-update-slot", h.Pos(), "%s does not call %s", fname(h), w.update)
+			continue
+		}
+		for _, c := range calls {
+			arg := TermOf(c.(*ssa.Call).Call.Args[1], nil)
+			okArg := arg.Kind == "field" && arg.Field.Name() == "slot" && strings.Contains(arg.String(), "triggeredWindows")
+			okGuard := false
+			for _, g := range guardsOf(c.Block()) {
+				if call, ok := g.Cond.(*ssa.Call); ok && g.Sense {
+					if cal := call.Call.StaticCallee(); cal != nil && cal.Name() == "Contains" && TermOf(call.Call.Args[0], nil).String() == arg.String() {
+						okGuard = true
+					}
+				}
+			}
+			a.Check(okArg && okGuard, fname(h)+"#late-update-slot", c.Pos(), "the late update is computed for the slot of the fired-window entry that Contains the event",
+				"the late update is called with "+arg.String()+" (not the slot of the fired-window entry whose Contains selected the event): the re-delivery would carry another window_id")
+		}
+		n := 0
+		allInstrs(u, func(in ssa.Instruction) {
+			st, ok := in.(*ssa.Store)
+			if !ok {
+				return
+			}
+			fa, ok := st.Addr.(*ssa.FieldAddr)
+			if !ok || !isNamedType(fa.X.Type(), typesPkg, "Row") || fieldVarOf(fa).Name() != "Slot" {
+				return
+			}
+			n++
+			t := TermOf(st.Val, nil)
+			a.Check(t.Kind == "param" && t.Idx == 1, fname(u)+"#rows-carry-slot", in.Pos(), "re-delivered rows carry the fired window's slot", "a re-delivered row is stamped with "+t.String()+" instead of the fired window's slot")
+		})
+		if n == 0 {
+			a.Bad(fname(u)+"#rows-carry-slot", u.Pos(), "the late update does not stamp its rows with a slot: window_start/window_end/window_id of the re-delivery are lost")
+		}
+	}
+	sw := a.Func("stream", "stampWindowID")
+	ok := false
+	allInstrs(sw, func(in ssa.Instruction) {
+		c, isCall := in.(*ssa.Call)
+		if !isCall || !isCallNamed(c, "fmt", "Sprintf") {
+			return
+		}
+		var terms []string
+		if sl, isSl := c.Call.Args[1].(*ssa.Slice); isSl {
+			if al, isAl := sl.X.(*ssa.Alloc); isAl {
+				for _, r := range *al.Referrers() {
+					if ia, isIA := r.(*ssa.IndexAddr); isIA {
+						for _, rr := range *ia.Referrers() {
+							if st, isSt := rr.(*ssa.Store); isSt {
+								terms = append(terms, TermOf(st.Val, nil).String())
+							}
+						}
+					}
+				}
+			}
+		}
+		j := strings.Join(terms, " ")
+		if strings.Contains(j, "Slot.Start") && strings.Contains(j, "Slot.End") && strings.Contains(j, "p1[]") {
+			ok = true
+		}
+	})
+	a.Check(ok, fname(sw)+"#id-from-slot", sw.Pos(), "window_id is formatted from Start and End of the batch's slot", "window_id is not derived from the batch slot's Start and End: first delivery and late re-delivery could carry different ids")
 }
